@@ -404,3 +404,23 @@ package http
 //@   ghost update @s.proxy.Execute: executed = (result3 == nil)
 //@   assert @atomic.StoreInt64: [seq-after-apply] (er.Request.Statements == nil || executed) && arg1 == req.SequenceNumber
 //@   assert @req.Close: [signal-after-apply] er.Request.Statements == nil || executed
+//
+// ---- C22: what the load and boot endpoints hand on -------------------------------------------------
+// /db/load: data recognised as a SQLite file goes to the cluster as a load request carrying exactly
+// the received bytes; anything else is treated as SQL text (never as a database file).
+// /boot: only data that starts like a SQLite file reaches Store.ReadFrom.
+//@ func (*Service) handleLoad
+//@   ghost var isDB bool = false
+//@   ghost var seenDB bool = false
+//@   ghost update @db.IsValidSQLiteData: isDB = result
+//@   ghost update @db.IsValidSQLiteData: seenDB = true
+//@   assert @db.IsValidSQLiteData: [classifies-body] arg0 == b
+//@   assert @s.proxy.Load: [binary-path-only-for-sqlite] seenDB && isDB && arg1 != nil && arg1.Data == b
+//@   assert @s.proxy.Execute: [sql-path-only-otherwise] seenDB && !isDB
+//@ func (*Service) handleBoot
+//@   ghost var isDB bool = false
+//@   ghost var seenDB bool = false
+//@   ghost update @db.IsValidSQLiteData: isDB = result
+//@   ghost update @db.IsValidSQLiteData: seenDB = true
+//@   assert @db.IsValidSQLiteData: [classifies-body-prefix] arg0 == peek
+//@   assert @s.store.ReadFrom: [sqlite-only] seenDB && isDB && arg0 == bufReader
